@@ -27,6 +27,80 @@ func word(r *Rng) string {
 	return ws[r.Pick(len(ws))]
 }
 
+// TrickyWord is text that needs care when it is re-encoded as JSON: markup characters, literal
+// backslash-u sequences, quotes, backslashes, control characters.
+func TrickyWord(r *Rng) string {
+	ws := []string{"a<b", "x>y", "R&D", "\\u003c", "\\u0026amp", "say \"hi\"", "back\\slash", "tab\there", "\\n", "</script>", "\u2028", "é\\u00e9"}
+	return ws[r.Pick(len(ws))]
+}
+
+// ExtraFixtures are further schemas used by individual harnesses (not indexed like Fixtures()).
+// The generators use TrickyWord for the string fields, escaped as each format requires.
+func ExtraFixtures() []Fixture {
+	fo := func(x string) string { return fmt.Sprintf(finalOutput, x) }
+	return []Fixture{
+		{Format: "edi", Schema: `{` + hdr("edi") + `, "file_declaration": { "segment_delimiter": "~\n", "element_delimiter": "*",
+  "segment_declarations": [ { "name": "HDR", "min": 0 },
+    { "name": "DAT", "is_target": true, "min": 0, "max": -1,
+      "elements": [ {"name":"a","index":1}, {"name":"b","index":2}, {"name":"c","index":3,"default":""} ] },
+    { "name": "TRL", "min": 0 } ] }, ` + fo("") + `}`,
+			Gen: func(r *Rng, n int) []byte {
+				var sb strings.Builder
+				sb.WriteString("HDR*1~\n")
+				for i := 0; i < n; i++ {
+					fmt.Fprintf(&sb, "DAT*%s*%s*%s~\n", strings.NewReplacer("*", "+", "~", "-").Replace(TrickyWord(r)), numOrBad(r), word(r))
+				}
+				if r.Chance(0.5) {
+					sb.WriteString("TRL*9~\n")
+				}
+				switch r.Pick(6) { // trailing fragments after the last terminator
+				case 0:
+					sb.WriteString(" ")
+				case 1:
+					sb.WriteString("\x1a")
+				case 2:
+					sb.WriteString("~")
+				case 3:
+					sb.WriteString("D")
+				}
+				return []byte(sb.String())
+			}},
+		{Format: "csv2", Schema: `{` + hdr("csv2") + `, "file_declaration": { "delimiter": "|",
+  "records": [ { "name": "R", "is_target": true, "columns": [ {"name":"a","index":1}, {"name":"b","index":2}, {"name":"c","index":3} ] } ] }, ` + fo("") + `}`,
+			Gen: func(r *Rng, n int) []byte {
+				var sb strings.Builder
+				for i := 0; i < n; i++ {
+					fmt.Fprintf(&sb, "%s|%s|%s\n", strings.NewReplacer("|", "/", "\"", "'").Replace(TrickyWord(r)), numOrBad(r), strings.NewReplacer("|", "/", "\"", "'").Replace(TrickyWord(r)))
+				}
+				return []byte(sb.String())
+			}},
+		{Format: "json", Schema: `{` + hdr("json") + `, ` + fo(`"xpath": "/*",`) + `}`,
+			Gen: func(r *Rng, n int) []byte {
+				var sb strings.Builder
+				sb.WriteString("[")
+				for i := 0; i < n; i++ {
+					if i > 0 {
+						sb.WriteString(",")
+					}
+					fmt.Fprintf(&sb, `{"a":%q,"b":%q,"c":%q}`, TrickyWord(r), numOrBad(r), TrickyWord(r))
+				}
+				sb.WriteString("]")
+				return []byte(sb.String())
+			}},
+		{Format: "xml", Schema: `{` + hdr("xml") + `, ` + fo(`"xpath": "/r/n",`) + `}`,
+			Gen: func(r *Rng, n int) []byte {
+				esc := strings.NewReplacer("&", "&amp;", "<", "&lt;", ">", "&gt;")
+				var sb strings.Builder
+				sb.WriteString("<r>")
+				for i := 0; i < n; i++ {
+					fmt.Fprintf(&sb, "<n><a>%s</a><b>%s</b><c>%s</c></n>", esc.Replace(TrickyWord(r)), numOrBad(r), esc.Replace(TrickyWord(r)))
+				}
+				sb.WriteString("</r>")
+				return []byte(sb.String())
+			}},
+	}
+}
+
 func numOrBad(r *Rng) string {
 	if r.Chance(0.15) {
 		return r.PickStr("x1", "", "1.5", "--", "9z")
